@@ -348,6 +348,9 @@ pub fn prop(c: &Case, log: &mut CaseLog) -> Verdict {
     let sc = Scratch::new("c09");
     sc.write_project(&proj, &toml);
     let run = run_mos(&sc.dir, &["--no-color", "-e", "Short", "build"]);
+    if run.timed_out {
+        return Verdict::Discard("mos killed by the watchdog".into());
+    }
     let out = sc.snapshot("target");
     let files: BTreeMap<String, Vec<u8>> = out.into_iter().map(|(k, v)| (k, v.0)).collect();
     let detail = |what: &str| {
